@@ -719,10 +719,67 @@ def samplers(repo):
     return "\n".join(out)
 
 
+def random_single(repo):
+    """`Random::single` (src/random.rs): the frame `let mut iter = collection.into_iter(); let (len, upper) = iter.size_hint(); if upper ==
+    Some(len) { let index = usize::min(A, self.index(B)); return iter.nth(index); } let mut result = None; let mut denom = <d0>;
+    iter.for_each(|item| { .. }); result` is checked; A, B and d0 are extracted and the closure - one item of the reservoir - is translated:
+    `self.chance(p)` is a draw from an abstract generator, `result = Some(item)` / `drop(item)` the two outcomes, `denom += <c>` the counter."""
+    from extract_scalar import parse_fns
+    raw, _ = parse_fns(open(os.path.join(repo, "src/random.rs")).read())
+    cands = [f for f in raw.get("single", []) if f[0] and f[0][0][0] == "self"]
+    if len(cands) != 1:
+        raise TranslateError("src/random.rs: single not found (or not unique)")
+    toks = ftok(cands[0][2])
+    Tk = lambda txt: ftok(retok(tokenize(txt)))
+    pre = Tk("let mut iter = collection.into_iter(); let (len, upper) = iter.size_hint(); if upper == Some(len) { let index = usize::min(")
+    if toks[:len(pre)] != pre:
+        raise TranslateError("single: the exact-size shortcut has another shape")
+    k = matching(toks, len(pre) - 1)                      # the `)` of usize::min(
+    args = split_top(toks[len(pre):k], ",")
+    mid = Tk("; return iter.nth(index); } let mut result = None; let mut denom =")
+    if len(args) != 2 or toks[k + 1:k + 1 + len(mid)] != mid:
+        raise TranslateError("single: the exact-size shortcut has another shape")
+    a0 = args[0]
+    idx = Tk("self.index(")
+    if a0 != [("id", "len")] or args[1][:len(idx)] != idx or args[1][len(idx):] != [("id", "len"), ("op", ")")]:
+        raise TranslateError("single: the shortcut is not usize::min(len, self.index(len))")
+    j = k + 1 + len(mid)
+    d0 = []
+    while toks[j] != ("op", ";"):
+        d0.append(toks[j])
+        j += 1
+    fe = Tk("; iter.for_each(|item| {")
+    if toks[j:j + len(fe)] != fe:
+        raise TranslateError("single: the reservoir loop has another shape")
+    b0 = j + len(fe) - 1
+    b1 = matching(toks, b0)
+    if toks[b1 + 1:] != Tk("); result"):
+        raise TranslateError("single: the end has another shape")
+    t0 = T("single", {}, {}, STRUCTS)
+    init = t0.val(FP(d0).expr()).replace(" f ", " b64 ")
+    stmts, tail = FP(toks[b0 + 1:b1]).body()
+    if not (tail is None and len(stmts) == 2 and stmts[0][0] == "if" and stmts[0][3] is not None and stmts[1][0] == "assign" and stmts[1][1] == ("id", "denom")):
+        raise TranslateError("single: the closure is not `if self.chance(..) { .. } else { .. } denom += ..;`")
+    c = stmts[0][1]
+    if not (c[0] == "mcall" and c[1] == ("id", "self") and c[2] == "chance" and len(c[3]) == 1):
+        raise TranslateError("single: the condition is not self.chance(..)")
+    tt = T("single", {"denom": "denom"}, {}, STRUCTS)
+    p = tt.val(c[3][0]).replace(" f ", " b64 ")
+    yes, no = stmts[0][2], stmts[0][3]
+    if not (yes[1] == [("assign", ("id", "result"), ("call", "Some", [("id", "item")]))] and yes[2] is None
+            and (no[1] == [("expr", ("call", "drop", [("id", "item")]))] or not no[1]) and no[2] is None):
+        raise TranslateError("single: the two outcomes are not `result = Some(item)` / `drop(item)`")
+    d1 = tt.val(stmts[1][2]).replace(" f ", " b64 ")
+    return ("def single_denom0 : Nat := %s\n\n"
+            "def single_item {σ : Type} (chance : σ → Nat → Bool × σ) (st : Nat × Option Nat × σ) (item : Nat) : Nat × Option Nat × σ :=\n"
+            "  let (denom, result, rng) := st\n  let (take, rng) := chance rng %s\n  let result := if take then some item else result\n"
+            "  let denom := %s\n  (denom, result, rng)\n" % (init, p, d1))
+
+
 def generate(repo, out_dir, write):
     """one generated file per group of sources, so that a source the translator cannot read breaks the obligations about that group only"""
     for fname, what, fn in (("FloatDistr", "src/distr/{exp,normal}.rs", lambda r: translate(r) + "\n" + samplers(r)), ("FloatUniform", "src/distr/uniform/float.rs", uniform_float),
-                            ("FloatBernoulli", "src/distr/bernoulli.rs, Random::chance", bernoulli), ("FloatZiggurat", "src/distr/ziggurat.rs", ziggurat)):
+                            ("FloatBernoulli", "src/distr/bernoulli.rs, Random::chance", bernoulli), ("FloatZiggurat", "src/distr/ziggurat.rs", ziggurat), ("FloatSingle", "src/random.rs (single)", random_single)):
         head = ("/- GENERATED by tools/extract_float.py from %s on every run - do not edit. -/\n"
                 "import Urandom.Model.FloatDistr\nset_option linter.unusedVariables false\nnamespace Urandom.Generated.FloatD\nopen Urandom Urandom.IEEE Urandom.FD\n\n" % what)
         try:
@@ -740,3 +797,4 @@ if __name__ == "__main__":
     print(bernoulli(os.environ.get("VERIF_REPO", "/repo")))
     print(ziggurat(os.environ.get("VERIF_REPO", "/repo")))
     print(samplers(os.environ.get("VERIF_REPO", "/repo")))
+    print(random_single(os.environ.get("VERIF_REPO", "/repo")))
